@@ -110,6 +110,17 @@ Theorem C36_type : forall t name ob,
   exists e, era_of_block_type t = Some e /\ ob_era ob = e_id e /\ ob_hdr_era ob = e_id e.
 Proof. exact block_dispatch_type. Qed.
 
+(* the same for NewBlockFromCborWithOffsets (each row observed in a fresh
+   process), and it answers cell by cell like NewBlockFromCbor *)
+Theorem C36_type_offsets : forall t name ob,
+  In (t, name, Some ob) offsets_dispatch ->
+  ob_type ob = t /\
+  exists e, era_of_block_type t = Some e /\ ob_era ob = e_id e /\ ob_hdr_era ob = e_id e.
+Proof. exact offsets_dispatch_type. Qed.
+
+Theorem C36_offsets_agrees_with_block : offsets_disagree = [].
+Proof. exact no_offsets_disagree. Qed.
+
 Theorem C36_header_type : forall t name era,
   In (t, name, Some era) header_dispatch -> exists e, era_of_block_type t = Some e /\ era = e_id e.
 Proof. exact header_dispatch_era. Qed.
